@@ -3,9 +3,14 @@ Model of `androguard/decompiler/writer.py: string()` and of the string branch of
 `Writer.visit_constant`, transliterated line by line (with the surrogate-pair fix, fixes/C23-*.diff).
 A Python `str` is a list of code points (naturals < 0x110000, surrogate code points included);
 the result is the list of code points of the returned `str`.
-Imports nothing.
+Every literal of `string()` (bounds, quote characters, named escapes, surrogate constants, shifts, masks, prefixes)
+comes from the generated module `AgVerif.Gen.JString`; gen/jstring.py also pins the SHAPE of the function (a
+per-character loop, four `'%x'` nibbles, pieces joined with '', no pass over the joined result).
+Imports only the generated constants.
 -/
+import AgVerif.Gen.JString
 namespace AgVerif.JavaString
+open AgVerif.Gen.JString
 
 /-- one lower-case hex digit -/
 def hexNib (n : Nat) : Nat := if n < 10 then 0x30 + n else 0x57 + n
@@ -29,27 +34,27 @@ def pyUnicodeEscape (c : Nat) : List Nat :=
 
 /-- the four `ret.append` lines: `\u`, `'%x' % (i >> 12)`, and three masked nibbles -/
 def uEscape (i : Nat) : List Nat :=
-  [0x5c, 0x75] ++ hexDigits (i >>> 12) ++ hexDigits ((i >>> 8) &&& 0x0F)
-    ++ hexDigits ((i >>> 4) &&& 0x0F) ++ hexDigits (i &&& 0x0F)
+  uPrefix ++ hexDigits (i >>> shift1) ++ hexDigits ((i >>> shift2) &&& mask2)
+    ++ hexDigits ((i >>> shift3) &&& mask3) ++ hexDigits (i &&& mask4)
 
 /-- `units`: the tuple the `\u` loop runs over -/
 def units (i : Nat) : List Nat :=
-  if i ≥ 0x10000 then
-    let j := i - 0x10000
-    [0xD800 + (j >>> 10), 0xDC00 + (j &&& 0x3FF)]
+  if i ≥ suppMin then
+    let j := i - suppSub
+    [hiBase + (j >>> hiShift), loBase + (j &&& loMask)]
   else [i]
 
 /-- the body of the `for c in s` loop: what is appended for one character -/
 def escChar (c : Nat) : List Nat :=
-  if 0x20 ≤ c ∧ c < 0x7f then                         -- ' ' <= c < '\x7f'
-    if c = 0x27 ∨ c = 0x22 ∨ c = 0x5c then [0x5c, c]   -- ' " \  get a backslash
+  if printLo ≤ c ∧ c < printHi then                          -- ' ' <= c < '\x7f'
+    if c = quote1 ∨ c = quote2 ∨ c = quote3 then escPrefix ++ [c]   -- ' " \  get a backslash
     else [c]
-  else if c ≤ 0x7f ∧ (c = 0x0d ∨ c = 0x0a ∨ c = 0x09) then
-    pyUnicodeEscape c                                   -- \r \n \t
+  else if c ≤ asciiHi ∧ named.contains c = true then         -- elif c <= '\x7f': if c in ('\r', '\n', '\t'):
+    pyUnicodeEscape c
   else (units c).flatMap uEscape
 
 /-- `string(s)` -/
-def escape (s : List Nat) : List Nat := [0x22] ++ s.flatMap escChar ++ [0x22]
+def escape (s : List Nat) : List Nat := openQuote ++ s.flatMap escChar ++ closeQuote
 
 /-- `Writer.visit_constant(cst)` for a `str` constant: what is written to the output -/
 def visitConstantStr (s : List Nat) : List Nat := escape s
